@@ -574,6 +574,65 @@ async fn step_inner(w: &mut World, l: &[Tok], start: SystemTime) -> Vec<Vec<Tok>
                 Err(databroker::broker::QueryError::InternalError) => vec![vec![1, 10]],
             }
         }
+        42 => {
+            // SUBQS: the query subscription of operation 40 opened through sdv.databroker.v1 Broker::Subscribe
+            let (Some(p), Some(_extras), Some(sql)) = (c.next(), c.next(), c.string()) else { return bad };
+            let perms = w.perm(p);
+            use databroker_proto::sdv::databroker::v1 as ps;
+            let mut rq = tonic::Request::new(ps::SubscribeRequest { query: sql });
+            rq.extensions_mut().insert(perms);
+            match ps::broker_server::Broker::subscribe(&w.broker, rq).await {
+                Ok(resp) => {
+                    let st = resp.into_inner().filter_map(|item| async move {
+                        let reply = item.ok()?;
+                        let mut fields: Vec<databroker::broker::QueryField> = reply
+                            .fields
+                            .into_iter()
+                            .map(|(name, dp)| databroker::broker::QueryField {
+                                name,
+                                value: match crate::fam_api::from_sdv_value(&dp.value) {
+                                    Ok(Some(v)) => v,
+                                    Ok(None) => DataValue::String("!no value".into()),
+                                    Err(1) => DataValue::NotAvailable,
+                                    Err(k) => DataValue::String(format!("!failure {}", k)),
+                                },
+                            })
+                            .collect();
+                        fields.sort_by(|a, b| a.name.cmp(&b.name));
+                        Some(databroker::broker::QueryResponse { fields })
+                    });
+                    w.qsubs.push(Some(Box::pin(st)));
+                    let mut lines = vec![vec![0, (w.qsubs.len() - 1) as Tok]];
+                    lines.extend(drain_queries(w));
+                    lines
+                }
+                Err(status) => {
+                    // Status::new(InvalidArgument, format!("{e:?}")): CompilationError("Kind(...)") | InternalError
+                    let msg = status.message().to_string();
+                    let kind = msg.split("(\"").nth(1).unwrap_or("").split('(').next().unwrap_or("").to_string();
+                    if status.code() != tonic::Code::InvalidArgument {
+                        vec![vec![1, 100 + crate::util::code_num(status.code())]]
+                    } else if msg.starts_with("InternalError") {
+                        vec![vec![1, 10]]
+                    } else {
+                        vec![vec![
+                            1,
+                            match kind.as_str() {
+                                "UnknownField" => 1,
+                                "TypeError" => 2,
+                                "UnsupportedOperator" => 3,
+                                "UnsupportedOperation" => 4,
+                                "ParseError" => 5,
+                                "MalformedNumber" => 6,
+                                "InvalidLogic" => 7,
+                                "InvalidComparison" => 8,
+                                _ => 9,
+                            },
+                        ]]
+                    }
+                }
+            }
+        }
         50..=55 => crate::fam_viss::step_viss(w, op, &mut c, start).await,
         60..=63 => crate::fam_prov::step_prov(w, op, &mut c).await,
         41 => {
